@@ -85,7 +85,10 @@ def _paths_from_list_modifications(module_context, trailer1, trailer2):
     if name not in ['insert', 'append']:
         return
     arg = trailer2.children[1]
-    if name == 'insert' and len(arg.children) in (3, 4):  # Possible trailing comma.
+    if name == 'insert':
+        # `sys.path.insert(<index>, <path>)`, possibly with a trailing comma.
+        if arg.type != 'arglist' or len(arg.children) not in (3, 4):
+            return
         arg = arg.children[2]
 
     for value in module_context.create_context(arg).infer_node(arg):
